@@ -66,16 +66,15 @@ Definition bounded_masks : list N := map N.of_nat (seq 0 128).
 (** the in-memory file system holding the always-present files and the subset [mask] of the optional ones *)
 Definition bounded_fs (mask : N) : fs := (select_mask (mk_fs bounded_optional) mask ++ mk_fs bounded_base)%list.
 
-Definition bounded_ok : bool :=
-  forallb (fun pr =>
-    forallb (fun mask =>
-      forallb (fun src =>
-        forallb (fun lit => conv_ok (fst pr) (snd pr) (bounded_fs mask) src lit) bounded_literals)
-        bounded_sources)
-      bounded_masks)
-    bounded_pairs.
+(** the four nested enumerations; the statement that is evaluated is an explicit [forallb]
+    (a defined constant here would make the kernel unfold the wrong side at [Qed]) *)
+Definition ok_literals (cur tgt : config) (f : fs) (src : path) : bool :=
+  forallb (conv_ok cur tgt f src) bounded_literals.
+Definition ok_sources (cur tgt : config) (f : fs) : bool := forallb (ok_literals cur tgt f) bounded_sources.
+Definition ok_masks (cur tgt : config) : bool :=
+  forallb (fun mask => ok_sources cur tgt (bounded_fs mask)) bounded_masks.
 
-Lemma bounded_ok_true : bounded_ok = true.
+Lemma bounded_ok_true : forallb (fun pr => ok_masks (fst pr) (snd pr)) bounded_pairs = true.
 Proof. vm_compute. reflexivity. Qed.
 
 Lemma bounded_all :
@@ -84,10 +83,12 @@ Lemma bounded_all :
   conv_ok (fst pr) (snd pr) (bounded_fs mask) src lit = true.
 Proof.
   intros pr Hp mask Hm src Hs lit Hl.
-  pose proof bounded_ok_true as H0.
-  pose proof (proj1 (forallb_forall _ _) H0 pr Hp) as H1. clear H0.
-  pose proof (proj1 (forallb_forall _ _) H1 mask Hm) as H2. clear H1.
+  pose proof (proj1 (forallb_forall _ _) bounded_ok_true pr Hp) as H1. cbv beta in H1.
+  unfold ok_masks in H1.
+  pose proof (proj1 (forallb_forall _ _) H1 mask Hm) as H2. cbv beta in H2. clear H1.
+  unfold ok_sources in H2.
   pose proof (proj1 (forallb_forall _ _) H2 src Hs) as H3. clear H2.
+  unfold ok_literals in H3.
   exact (proj1 (forallb_forall _ _) H3 lit Hl).
 Qed.
 
